@@ -46,6 +46,34 @@ CHECKS = {
         "Trusts vf/ref R1/R3/R4. Found and repaired D1 (fix commit 3c1ecf0).",
         "DESIGN.md 6/C08",
     ),
+    "C05": (
+        "property-based differential testing: generated bases/points/order triples vs coefficient-array differentiation "
+        "oracle; back-end agreement and reject-or-equal rule",
+        "Generated-input search: l up to 6, points on centres/planes/far, order triples from (0..4)^3 (all 125 swept per "
+        "basis in a second sub-check), both back-ends, transformations; judged at 1e-9 of sum|terms|; direct back-end "
+        "with order>=3 or unknown back-end names must raise or return the reference numbers.",
+        "Trusts vf/ref R5 (selftest vs mpmath.diff). Found and repaired D4 (direct back-end, order>=3).",
+        "DESIGN.md 6/C05",
+    ),
+    "C06": (
+        "property-based differential testing vs defining sums (full Leibniz expansion over R5 values); threshold rule "
+        "probed with thresholds bracketing the generated most-negative value; output invariants",
+        "Generated-input search: PSD and indefinite density matrices, rectangular transformations, both back-ends, "
+        "orders up to (4,4,4); density, derivative of any order, gradient, Laplacian, Hessian, t+ and t_alpha compared "
+        "with their definitions at 1e-9 of sum|terms|; raise/clip decided at 0.9|v|, |v|, 1.1|v| and default threshold.",
+        "Trusts vf/ref R5 + dens. Found and repaired D8 (threshold applied to 2 t+).",
+        "DESIGN.md 6/C06",
+    ),
+    "C15": (
+        "property-based differential testing vs a mechanically derived operator algebra over D(p,q); finite-difference "
+        "metamorphic cross-check of the library's own fields",
+        "Generated-input search over bases, density matrices, points, transformations, with all nine special (alpha,beta) "
+        "cells enumerated plus random reals: stress tensor from its documented definition, force derived as -div sigma, "
+        "Hessian as Jacobian of the force, symmetric option; tolerance 1e-9 of sum|terms|; Richardson finite differences "
+        "of the library's sigma and F at 1e-5.",
+        "Trusts vf/ref R5 + dens algebra; Hessian sign convention = documented expanded formula (+dF_j/dr_k).",
+        "DESIGN.md 6/C15",
+    ),
 }
 
 NOT_YET = "check not built yet in this revision (planned, see DESIGN.md section 6)"
